@@ -33,6 +33,8 @@ structure Target where
   /-- merge_refine.go `rowGroupDropsRows`: the row group is (or wraps) a deduplicating view, whose
       `Rows()` leave out rows that its column chunks hold -/
   dropsRows : Bool := false
+  /-- row_range.go `supportsRowRanges`: `rowRangeOf` can present a range of the rows of the row group -/
+  supportsRanges : Bool := true
 deriving Inhabited
 
 /-- position of a first-column value in sort order -/
@@ -135,12 +137,13 @@ def searchFirst {β : Type} (f : β → Bool) : List β → Nat
     are entirely null are refused); `strict = true` also refuses pages that hold some nulls
     (proposed_fixes/C09_cut_lookups_nulls.diff). An interleaved row group has no lookups: they search
     the pages and turn them into row positions, both of which need the pages in row order; neither
-    has a deduplicating view: the row positions of the offset index count the rows of the chunks. -/
+    has a deduplicating view: the row positions of the offset index count the rows of the chunks; nor
+    a row group whose rows `rowRangeOf` cannot slice (`supportsRowRanges`, library fix 35e9777). -/
 def hasCuts (strict : Bool) (t : Target) : Bool :=
   match t.cols with
   | [] => false
   | pages :: _ => !pages.isEmpty && pages.length == t.firstRows.length &&
-      !pages.any (fun p => p.nullPage || (strict && p.hasNulls)) && !t.interleaved && !t.dropsRows
+      !pages.any (fun p => p.nullPage || (strict && p.hasNulls)) && !t.interleaved && !t.dropsRows && t.supportsRanges
 
 def pageEnd (t : Target) (p : Nat) : Nat :=
   if p + 1 < t.firstRows.length then t.firstRows.getD (p + 1) 0 else t.numRows
